@@ -69,15 +69,52 @@ theorem C14_nothing_stuck (d : DictFn) (c : Bool) (es : List CEv) (s : CN) (h : 
     s.inbox = [] ∧ s.pipeData = [] ∧ nextMsg d s.rbuf = .need :=
   CInv_nothing_stuck d s (Inv_reach d c es s h).1 hq ht hh
 
+/-- The same over a multistream (SCTP) association, where `closeNotify` installs the association's
+    error handler instead of the pipe and its copy goroutine (`Gen.closeNotifyMultiCalls`; the
+    bytes are those of the stream in use - demultiplexing is C19's subject): for every event
+    sequence the channel is closed at most once and only when the connection is gone; at rest
+    after the end it is closed and the reader has ended; a late request is answered with a closed
+    channel; and requesting it changes nothing about what the handlers are given. -/
+theorem C14_multistream (d : DictFn) (c : Bool) (es : List CEv) (s : CN)
+    (h : CN.run d { multi := true, coal := c } es = some s) :
+    (s.closes ≤ 1 ∧ (s.closes = 1 ↔ s.chan = .closed)) ∧
+    (s.chan = .closed → s.terminated = true) ∧
+    (s.quiescent d = true → s.terminated = true → s.reader ≠ .inHandler → s.chan ≠ .open ∧ s.reader = .exited) ∧
+    (∀ s', s.reader = .exited → s.chan = .none → s.step d .requestCN = some s' → s'.chan = .closed) ∧
+    (∃ rest, s.sent = s.consumed ++ rest ∧
+      ∀ (fin : Fin) (fuel : Nat),
+        (split d (s.handed.length + fuel) s.sent fin).1 = s.handed.map MsgRes.msg ++ (split d fuel rest fin).1) := by
+  obtain ⟨inv, ⟨r, hr1, _⟩, hcut⟩ := Inv_reach' d true c es s h
+  refine ⟨?_, ?_, ?_, ?_, ?_⟩
+  · rw [inv.closes]; split <;> simp_all
+  · intro hc; exact inv.goneTerm (inv.chanGone hc)
+  · intro hq ht hh
+    have r := CInv_quiet d s inv hq ht hh
+    exact ⟨r.1, r.2.1⟩
+  · intro s' hg hn hs
+    have := (inv.exGone hg).1
+    simp [CN.step, hn, this] at hs
+    subst hs; rfl
+  · exact ⟨r, hr1, fun fin fuel => by rw [hr1, hcut r fin fuel]⟩
+
 /-- structural facts the model stands on, regenerated from server.go: the reader loop's deferred
     exit path closes the transport and notifies; the handler is called synchronously -/
-theorem C14_gen : Gen.serveDeferClose = true ∧ Gen.serveDeferNotify = true ∧ Gen.serveDispatchSync = true := by decide
+theorem C14_gen : Gen.serveDeferClose = true ∧ Gen.serveDeferNotify = true ∧ Gen.serveDispatchSync = true ∧
+    Gen.closeNotifyMultiCalls = ["SetErrorHandler", "Close", "notifyClientGone"] := by decide
 
 /-- non-vacuity: CloseNotify requested while the reader is blocked in Read, then the peer
     closes: the channel is closed, reader and copier have exited (the schedule F15 failed on) -/
 example :
     let d : DictFn := { cmdRules := fun _ _ => some (1, 1), avpType := fun _ _ _ => 0 }
     ((CN.run d {} [.readerStep, .requestCN, .peerEof, .readerStep]).map
+      (fun s => (s.chan, s.reader, s.copier, s.closes, s.quiescent d, s.terminated))) =
+      some (.closed, .exited, .notStarted, 1, true, true) := by
+  decide
+
+/-- non-vacuity (multistream): requested while the reader is blocked, then a read error -/
+example :
+    let d : DictFn := { cmdRules := fun _ _ => some (1, 1), avpType := fun _ _ _ => 0 }
+    ((CN.run d { multi := true } [.readerStep, .requestCN, .readErr, .readerStep]).map
       (fun s => (s.chan, s.reader, s.copier, s.closes, s.quiescent d, s.terminated))) =
       some (.closed, .exited, .notStarted, 1, true, true) := by
   decide
